@@ -320,6 +320,18 @@ func (e *Exec) regionTerm(region string) (string, bool) {
 	if region == "" {
 		return "true", true
 	}
+	// (lit "text") names the literal string constant
+	for {
+		i := strings.Index(region, "(lit \"")
+		if i < 0 {
+			break
+		}
+		j := strings.Index(region[i+6:], "\")")
+		if j < 0 {
+			break
+		}
+		region = region[:i] + e.solver.lit(region[i+6:i+6+j]) + region[i+6+j+2:]
+	}
 	for _, w := range strings.FieldsFunc(region, func(r rune) bool { return r == '(' || r == ')' || r == ' ' }) {
 		if strings.HasPrefix(w, "i_") || strings.HasPrefix(w, "s_") || strings.HasPrefix(w, "b_") || strings.HasPrefix(w, "f_") || strings.HasPrefix(w, "c_") {
 			if _, ok := e.nameSort[w]; !ok {
@@ -1719,7 +1731,10 @@ func (e *Exec) symConv(t_dst, t_src types.Type, x value) value {
 			return x
 		}
 	case symStr:
-		if _, ok := t_dst.Underlying().(*types.Slice); ok {
+		if sl, ok := t_dst.Underlying().(*types.Slice); ok {
+			if eb, isB := sl.Elem().Underlying().(*types.Basic); isB && eb.Kind() == types.Int32 {
+				return e.ropeToRunes(x)
+			}
 			x.bytes = true
 			return x
 		}
